@@ -55,6 +55,9 @@ type Config struct {
 	// GenesisMut may edit the genesis state (module name -> raw json) before InitChain
 	GenesisMut func(cdc Codec, gs map[string]json.RawMessage)
 	Start      time.Time
+	// BaseAppOptions are appended to the baseapp options of app.New (what the binary's server.DefaultBaseappOptions adds from
+	// app.toml, e.g. an application-side mempool)
+	BaseAppOptions []func(*baseapp.BaseApp)
 }
 
 type Codec interface {
@@ -95,7 +98,7 @@ func DefaultConfig() Config {
 
 // New builds the application and runs InitChain + the first block.
 func New(cfg Config) (*Chain, error) {
-	a := app.New(log.NewNopLogger(), dbm.NewMemDB(), nil, true, simtestutil.EmptyAppOptions{}, baseapp.SetChainID(ChainID))
+	a := app.New(log.NewNopLogger(), dbm.NewMemDB(), nil, true, simtestutil.EmptyAppOptions{}, append([]func(*baseapp.BaseApp){baseapp.SetChainID(ChainID)}, cfg.BaseAppOptions...)...)
 	custom.ReplaceCustomModules(a.ModuleManager, a.AppCodec())
 	gs := a.DefaultGenesis()
 	cdc := a.AppCodec()
